@@ -281,7 +281,7 @@ fn programs(quick: bool) -> Vec<Prog> {
         }
     }
     // (c) jumps / fall-through to every target for every limit
-    let limits: Vec<u8> = if quick { vec![0, 1, 2, 0x10, 0x7F, 0x80, 0xEE, 0xEF, 0xF0, 0xFE, 0xFF] } else { (0..=255u8).collect() };
+    let limits: Vec<u8> = if quick { (0..=255u8).step_by(5).chain([1, 2, 0x7F, 0xEE, 0xEF, 0xFE, 0xFF]).collect() } else { (0..=255u8).collect() };
     let targets: Vec<u8> = (0..=255u8).collect();
     for &lim in &limits {
         for &t in &targets {
@@ -302,8 +302,33 @@ fn programs(quick: bool) -> Vec<Prog> {
             }
         }
     }
+    // halts reached with the key interrupt armed (MICR key bit + IE), armed only in MICR, only IE, or not at all:
+    // a halted machine must stay halted whatever is enabled
+    for &s in &[Stacksize::_16, Stacksize::_0] {
+        for (arm, name) in [(vec![0xFBu8, 0x01, 0x5F, 0xF9, 0x08], "MICR+EI"), (vec![0xFB, 0x01, 0x5F, 0xF9], "MICR"), (vec![0x08], "EI"), (vec![], "unarmed")] {
+            for (halt, hname) in [(vec![0x01u8], "STOP"), (vec![0x00], "opcode 0"), (vec![0xFB, 0xD5, 0x40], "LDSP into band"), (vec![0xF0, 0x01], "second byte 1"), (vec![0x4C], "undefined opcode")] {
+                let mut code = vec![0xFB, 0xE0, 0x40];
+                code.extend(&arm);
+                code.extend(&halt);
+                code.extend([0x02, 0x02, 0x20, 0xFE]);
+                v.push(mk(format!("{} then {}", name, hname), s, free_p, &code, 0x10, 0x10, 200));
+            }
+        }
+    }
     // Programsize::Auto (no program loaded): only PC == 0 is valid
     v.push(mk("auto limit, NOP".into(), Stacksize::_16, Programsize::Auto, &[0x02], 0, 0, 30));
+    // all 2^16 two-byte heads followed by a hostile tail, every stack size, two limits
+    {
+        let heads: Vec<u16> = if quick { (0..=0xFFFFu16).step_by(17).collect() } else { (0..=0xFFFFu16).collect() };
+        for h in heads {
+            for &s in &SIZES {
+                for lim in [0x30u8, 0xFF] {
+                    let code = [(h >> 8) as u8, h as u8, 0xFB, 0xF0, 0x12, 0xFA, 0x10, 0x10, 0x28, 0x20, 0xF1, 0x40, 0x18, 0x1C, 0x17, 0x14, 0x20, 0xF0];
+                    v.push(mk(format!("head {:04x}", h), s, Programsize::Size(lim), &code, 0, 0xE8, 260));
+                }
+            }
+        }
+    }
     // (d) every first byte at address 0 and every second byte after 0xF0/0xF5/0xFB/0xFF, all sizes in thorough
     let sizes_d: &[Stacksize] = if quick { &[Stacksize::_16] } else { &SIZES };
     for &s in sizes_d {
@@ -623,15 +648,17 @@ pub fn run() {
     }
     // absorption BFS from every distinct halted state (bounded number per tier, spread over the set)
     // class-complete choice: every class (halt kind, micro address, IR, stack size, rule intact or
-    // broken at the halt) contributes up to `per_class` states, in deterministic order
+    // broken at the halt, key interrupt armed in MICR, IE set) contributes up to `per_class` states, in deterministic order
     let per_class = if quick { 2 } else { 12 };
-    let mut by_class: BTreeMap<(u8, u16, u8, u8, bool), Vec<&(Machine, Prog)>> = BTreeMap::new();
+    let mut by_class: BTreeMap<(u8, u16, u8, u8, bool, bool, bool), Vec<&(Machine, Prog)>> = BTreeMap::new();
     for hp in &all.halted {
         let m = &hp.0;
         let regs = m.registers().content();
         let ok = sp_ok(regs[5], m.stacksize()) && pc_ok(regs[3], m.programsize());
         let sz = SIZES.iter().position(|s| *s == m.stacksize()).unwrap_or(9) as u8;
-        by_class.entry((m.state() as u8, m.verif_micro_addr() as u16, m.verif_ir(), sz, ok)).or_default().push(hp);
+        let armed = m.bus().is_key_edge_int_enabled();
+        let ie = regs[4] & 0x08 != 0;
+        by_class.entry((m.state() as u8, m.verif_micro_addr() as u16, m.verif_ir(), sz, ok, armed, ie)).or_default().push(hp);
     }
     let n_classes = by_class.len();
     let chosen: Vec<&(Machine, Prog)> = by_class.values().flat_map(|v| v.iter().take(per_class).cloned()).collect();
@@ -666,7 +693,7 @@ pub fn run() {
     ctx.set("distinct_nontrivial", all.halted.len());
     ctx.set("rule", "every generated run is clocked edge by edge with the REF-SUP monitor checking the state flip of every edge; distinct_nontrivial = distinct halted machine states reached (full-state digest); each chosen halted state is the root of a depth-3 BFS over 10 further stimuli");
     ctx.set("exhaustive", true);
-    ctx.set("bounds", format!("{} runs: LDSP to all 256 values x 5 walks x 5 sizes; recursion/pop loops x 7 start SPs x 5 sizes; MOV PC / JR to all 256 targets x {} limits; all 256 first bytes and second bytes after 4 prefixes; 23^2 two-instruction sequences x 3 register sets x 5 sizes x limits; absorption BFS depth 3 from {} halted states chosen class-complete from {} classes ({} distinct halted states kept)", n_progs, if quick { 11 } else { 256 }, chosen.len(), n_classes, all.halted.len()));
+    ctx.set("bounds", format!("{} runs: LDSP to all 256 values x 5 walks x 5 sizes; recursion/pop loops x 7 start SPs x 5 sizes; MOV PC / JR to all 256 targets x {} limits; all 256 first bytes and second bytes after 4 prefixes; 23^2 two-instruction sequences x 3 register sets x 5 sizes x limits; absorption BFS depth 3 from {} halted states chosen class-complete from {} classes ({} distinct halted states kept)", n_progs, if quick { 58 } else { 256 }, chosen.len(), n_classes, all.halted.len()));
     ctx.set("monitored_edges", all.st.edges);
     ctx.set("error_stops_by_rule", all.st.flips_error_rule);
     ctx.set("error_stops_by_opcode_00", all.st.flips_error_00);
